@@ -477,7 +477,7 @@ class Env:
                 return [('block', st, 'self-deadlock')]
             return [('block', st, 'mutex')]
         M.write(st, a[0], m.with_field(1, Opaque('owner:' + th.name)))
-        g = Agg('MutexGuard', [a[0]])
+        g = Agg('MutexGuard', [a[0], bool(th.panicking)])
         if m.f[2] is True: return s.ret(st, err(Agg('PoisonError', [g])))
         return s.ret(st, ok(g))
 
@@ -494,7 +494,7 @@ class Env:
     def d_MutexGuard(s, M, st, th, v):
         m = M.deref(st, v.f[0])
         m = m.with_field(1, Opaque('unlocked'))
-        if th.panicking: m = m.with_field(2, True)
+        if th.panicking and not v.f[1]: m = m.with_field(2, True)     # std: only a panic that started while the guard was held poisons
         M.write(st, v.f[0], m)
         return True
 
